@@ -1040,3 +1040,64 @@ Proof.
   unfold es_dS, er_dS. rewrite E1, E2, E3, (EA s i Hs Hi). unfold Qdiv. ring.
 Qed.
 End EffDeg.
+
+(* ====================================================================== *)
+(* C08: the pair-based SIR system on a single edge is exact                *)
+(* ====================================================================== *)
+(* Graph 0 - 1.  Rates as the code reads them: a susceptible u is infected by an infected neighbour v at rate
+   trans_rate_fxn(u, v); u recovers at rate rec_rate_fxn(u).  The 9-state Markov chain on (status of 0, status of 1)
+   has the generator `master1` below (p_ab = probability that node 0 is in a, node 1 in b).  The marginals
+   X_i, Y_i, <X_i Y_j>, <X_i X_j> of ANY probability vector p (a fortiori of the states reachable from a pure initial
+   condition) evolve by the pair-based right-hand side: no closure term is left because neither endpoint has a
+   second neighbour.  This is an identity between the two right-hand sides; the lift to solutions is ODE uniqueness
+   for this linear system (cited). *)
+Definition edge_adj (u : node) : list node := match u with N0 => [1%N] | Npos xH => [0%N] | _ => [] end.
+Definition edge_graph : graph := mkGraph [0%N; 1%N] edge_adj edge_adj false (fun _ _ => 1) (fun _ => 1) false false.
+Definition edge_idx (u : node) : nat := match u with N0 => 0%nat | _ => 1%nat end.
+Section SingleEdge.
+Variables (t01 t10 g0 g1 : Q).
+Definition edge_tr (u v : node) : Q := match u with N0 => t01 | _ => t10 end.
+Definition edge_rc (u : node) : Q := match u with N0 => g0 | _ => g1 end.
+(* p = [SS; SI; SR; IS; II; IR; RS; RI; RR] *)
+Definition master1 (p : vec) : vec :=
+  let SS := vnth 0 p in let SI := vnth 1 p in let SR := vnth 2 p in
+  let IS := vnth 3 p in let II := vnth 4 p in let IR := vnth 5 p in
+  let RS := vnth 6 p in let RI := vnth 7 p in let RR := vnth 8 p in
+  [ 0;                                           (* SS: nobody can infect *)
+    - (t01 + g1) * SI;                           (* SI: 0 is infected by 1 at rate trans(0,1); 1 recovers *)
+    g1 * SI;                                     (* SR *)
+    - (t10 + g0) * IS;                           (* IS *)
+    t10 * IS + t01 * SI - (g0 + g1) * II;        (* II *)
+    g1 * II - g0 * IR;                           (* IR *)
+    g0 * IS;                                     (* RS *)
+    g0 * II - g1 * RI;                           (* RI *)
+    g0 * IR + g1 * RI ].                         (* RR *)
+(* marginals in the layout of _dSIR_pair_based_: X ++ Y ++ XY (2x2) ++ XX (2x2); diagonal (non-edge) cells are 0 *)
+Definition marginals1 (p : vec) : vec :=
+  let SS := vnth 0 p in let SI := vnth 1 p in let SR := vnth 2 p in
+  let IS := vnth 3 p in let II := vnth 4 p in let IR := vnth 5 p in
+  let RS := vnth 6 p in let RI := vnth 7 p in
+  [ SS + SI + SR; SS + IS + RS;  IS + II + IR; SI + II + RI;  0; SI; IS; 0;  0; SS; SS; 0 ].
+
+Lemma pair_based_single_edge_exact pSS pSI pSR pIS pII pIR pRS pRI pRR t :
+  let p := [pSS; pSI; pSR; pIS; pII; pIR; pRS; pRI; pRR] in
+  veq (dSIR_pair_based edge_graph [0%N; 1%N] edge_idx edge_tr edge_rc (marginals1 p) t)
+      (marginals1 (master1 p)).
+Proof.
+  cbv [dSIR_pair_based pbSIR_dX pbSIR_dY pbSIR_dXY pbSIR_dXX triples_in triples_out prX prY prXY prXX
+       is_edge others node_at nN mem existsb filter negb orb N.eqb Pos.eqb
+       edge_graph edge_adj edge_idx edge_tr edge_rc gadj marginals1 master1
+       tab tab2 sumQ seq map flat_map app fold_right length Nat.add Nat.mul vnth nth].
+  repeat constructor; ring.
+Qed.
+(* the closure sums are empty on this graph: the system is closed without the pair approximation *)
+Lemma single_edge_no_closure Xi XY XX i j :
+  (i < 2)%nat -> (j < 2)%nat -> is_edge edge_graph [0%N; 1%N] i j = true ->
+  triples_in edge_graph [0%N; 1%N] edge_idx edge_tr Xi XY XX i j == 0 /\
+  triples_out edge_graph [0%N; 1%N] edge_idx edge_tr Xi XY XX i j == 0.
+Proof.
+  intros Hi Hj. destruct i as [|[|i]], j as [|[|j]]; try lia;
+    cbv [is_edge node_at nth mem existsb edge_graph gadj edge_adj N.eqb Pos.eqb orb];
+    intros H; try discriminate H; split; reflexivity.
+Qed.
+End SingleEdge.
